@@ -280,11 +280,13 @@ def position_decisions(body):
 
 def data_rules(ck, F, P):
     tests = []
-    for fn in ("DataParser::parse_char", "DataParser::finish", "DataParser::push_current_element"):
-        b = F.one(fn)
-        if b is None:
-            ck.missing("%s:DATA:%s" % (P, fn), fn)
-            continue
+    # every method of the DATA parser (parse_char, finish, push_current_element and whatever helpers they are split into)
+    methods = sorted(p for p, b_ in F.bodies.items() if b_.crate == "abasic_core" and b_.self_adt == "abasic_core::data::DataParser")
+    if not methods:
+        ck.missing("%s:DATA:methods" % P, "methods of data::DataParser")
+    for mp_ in methods:
+        b = F.bodies[mp_]
+        fn = "DataParser::" + mp_.split("::")[-1]
         for c in b.calls():
             nm = c.callee.split("::")[-1]
             if nm in ("is_empty", "len") and c.args:
